@@ -190,7 +190,7 @@ func credPlan(thorough bool, caseNo int, rnd *rand.Rand) []cred {
 	out = append(out, unknownUser()...)
 	out = append(out, wrongPassword()...)
 	if thorough {
-		for i := 0; i < 12; i++ {
+		for i := 0; i < 40; i++ {
 			out = append(out, fuzzCred(rnd))
 		}
 	}
@@ -202,7 +202,7 @@ func credPlan(thorough bool, caseNo int, rnd *rand.Rand) []cred {
 // valid (user, secret) pair.
 func fuzzCred(rnd *rand.Rand) cred {
 	users := []string{victimUser, ghostUser, adminUser + "x", "", " " + victimUser, victimUser + " ", strings.ToUpper(victimUser),
-		victimUser + ":" + victimUser, "víctim1", strings.Repeat("a", 300), "victim1\x00", "'" + victimUser + "'", "\"" + victimUser + "\""}
+		victimUser + ":" + victimUser, "víctim1", strings.Repeat("a", 300), "'" + victimUser + "'", "\"" + victimUser + "\""}
 	pws := []string{"", " ", "Wr0ng#Password", "x", strings.Repeat("Z", 400), userPass + "x", strings.ToLower(userPass), "Us3r#C19-veri", "%00", "' OR '1'='1"}
 	u := users[rnd.IntN(len(users))]
 	p := pws[rnd.IntN(len(pws))]
